@@ -48,6 +48,9 @@ inductive Atom where
   | shapeChanged | wrShape | shapeAssign | cursorAppears | wrShowCursor
   -- the bodies of the two nulling loops `for i := 1; i < skip+1; i += 1 { … }`
   | colIBeyond | break_ | endLastIDirty | lastINull
+  -- the loop headers and the two statements around them (read for `cell_loop_order`; the glue of
+  -- `Props.C01Body.iterI` / `rowsI` stands for them, they are not executed by `exec`)
+  | loadNext | dirtyZero | colLoop | rowRange
   | none_       -- a `switch` / `default` line (no text)
   | unknown
   deriving DecidableEq, Repr, Inhabited
@@ -55,7 +58,7 @@ inductive Atom where
 def kindOf (k : String) : Kind :=
   if k = "if" then .if_ else if k = "switch" then .switch_ else if k = "case" then .case_
   else if k = "default" then .default_
-  else if k = "for" then .for_
+  else if k = "for" ∨ k = "range" then .for_
   else if k = "assign" ∨ k = "write" ∨ k = "return" ∨ k = "continue" ∨ k = "call" ∨ k = "break" then .stmt
   else .unknown
 
@@ -115,6 +118,10 @@ def atomOf (t : String) : Atom :=
   else if t = "vx.mouseShapeLast=vx.mouseShapeNext" then .shapeAssign
   else if t = "vx.cursorNext.visible&&!vx.cursorLast.visible" then .cursorAppears
   else if t = "vx.tw.WriteString(vx.showCursor())" then .wrShowCursor
+  else if t = "next:=vx.screenNext.buf[row][col]" then .loadNext
+  else if t = "dirty:=0" then .dirtyZero
+  else if t = "col:=0;col<len(vx.screenNext.buf[row]);col+=1" then .colLoop
+  else if t = "row:=range vx.screenNext.buf" then .rowRange
   else if t = "col+i>=len(vx.screenNext.buf[row])" then .colIBeyond
   else if t = "end:=col+i+vx.advance(vx.screenLast.buf[row][col+i])+1;end>dirty" then .endLastIDirty
   else if t = "vx.screenLast.buf[row][col+i]=Cell{}" then .lastINull
